@@ -34,6 +34,7 @@ class G:
             return self.leaf(kind)
         if kind == 'int':
             c = r.random()
+            if c < 0.08: return 'tr(%s)' % self.expr('int', d + 1)          # tracing identity: makes evaluation order and count observable
             if c < 0.25: return '%s %s %s' % (self.expr('int', d + 1), r.choice(['+', '-']), self.expr('int', d + 1))
             if c < 0.35: return '%s * %d' % (self.expr('int', d + 1), r.randint(0, 3))
             if c < 0.45: return '(%s) %s %d' % (self.expr('int', d + 1), r.choice(['/', '%']), r.randint(1, 5))
@@ -225,10 +226,14 @@ class G:
 def gen(seed, size, emph=()):
     rng = random.Random(seed)
     g = G(rng, size, emph)
-    lines = []
+    lines = ['fn tr(x) {', '    print("tr")', '    print(x)', '    return x', '}']
     while g.size > 0: lines += g.stmt(0)
     for kind in ('int', 'str', 'list', 'obj'):
         for v in g.vars_of(kind)[:3]: lines.append('print(%s)' % v)
+    for kind in ('list', 'obj'):
+        vs = g.vars_of(kind)[:4]
+        for i in range(len(vs)):
+            for j in range(i + 1, len(vs)): lines.append('print(%s === %s)' % (vs[i], vs[j]))
     return '\n'.join(lines) + '\n'
 
 EMPH = {
